@@ -4,6 +4,7 @@
   Model: `Jence.evaluate` (`src/evaluation.rs`).
 -/
 import Jence.Model.Eval
+import Jence.Lemmas.EvalBound
 namespace Jence.Props.C16
 open Jence
 
@@ -28,5 +29,24 @@ theorem eval_congr (g h : Game) (hb : g.bbs = h.bbs) (hw : g.whiteOcc = h.whiteO
   have : g = { h with castling := g.castling, ep := g.ep, halfMoves := g.halfMoves, fullMoves := g.fullMoves, key := g.key } := by
     cases g; cases h; simp_all
   rw [this]; rfl
+
+/-- **T16.4** The magnitude of the static evaluation stays strictly below the range reserved for mate scores, for every
+    position with one king and at most fifteen other men a side (every position reachable by legal play), whoever is to
+    move and whatever the other fields hold. The per-piece bounds are computed from the generated tables, so a re-tuned
+    weight or piece-square value re-checks the inequality. -/
+theorem eval_bounded (g : Game) (h : MenOk g) : -Gen.MATE_BOUND < evaluate g ∧ evaluate g < Gen.MATE_BOUND :=
+  evaluate_bound g h
+
+/-- the start position as the engine represents it -/
+def startGame : Game :=
+  { bbs := #[0x00ff000000000000, 0x4200000000000000, 0x2400000000000000, 0x8100000000000000, 0x0800000000000000, 0x1000000000000000,
+             0x000000000000ff00, 0x0000000000000042, 0x0000000000000024, 0x0000000000000081, 0x0000000000000008, 0x0000000000000010],
+    whiteOcc := 0xffff000000000000, blackOcc := 0x000000000000ffff, allOcc := 0xffff00000000ffff, white := true, ep := 64,
+    castling := 15, fullMoves := 1, halfMoves := 0, key := 0 }
+
+set_option maxRecDepth 100000 in
+/-- non-vacuity: the hypothesis holds of the start position -/
+example : MenOk startGame := by
+  constructor <;> decide +kernel
 
 end Jence.Props.C16
